@@ -36,7 +36,7 @@ type Case struct {
 	PostAppend string     `json:"post_append"` // isolated kinds: after the run append one more error to "" | "child-then-parent" | "parent-then-child"
 }
 
-var actionKinds = []string{"append", "append", "kill", "stop", "stop", "isdone", "err", "errors"}
+var actionKinds = []string{"append", "append", "appendmany", "kill", "stop", "stop", "isdone", "err", "errors"}
 
 // Gen draws a case.
 func Gen(rt *rapid.T) Case {
@@ -52,7 +52,7 @@ func Gen(rt *rapid.T) Case {
 		for i := 0; i < k; i++ {
 			a := actionKinds[hx.Uniform(rt, len(actionKinds), "act")]
 			if stopHeavy && i == 0 {
-				a = []string{"stop", "kill", "append"}[hx.Uniform(rt, 3, "first")]
+				a = []string{"stop", "kill", "append", "appendmany"}[hx.Uniform(rt, 4, "first")]
 			}
 			acts = append(acts, a)
 		}
@@ -202,6 +202,7 @@ func run(c Case) hx.Verdict {
 		stoppers  int64
 		anySignal int64
 		serial    int64
+		manyUsed  int64
 	)
 	guard := func(g int, what string) {
 		if rec := recover(); rec != nil {
@@ -228,6 +229,26 @@ func run(c Case) hx.Verdict {
 						atomic.AddInt64(&stoppers, 1)
 						atomic.StoreInt64(&anySignal, 1)
 						target.AppendError(e)
+					case "appendmany":
+						// the caller reports a list it owns (a slice with spare capacity) and re-uses that
+						// buffer afterwards: the scope must have kept its own record of the errors
+						n := 2 + int(atomic.AddInt64(&serial, 1)%3)
+						buf := make([]error, 0, n+4)
+						for k := 0; k < n; k++ {
+							buf = append(buf, fmt.Errorf("M-%d-%d", g, atomic.AddInt64(&serial, 1)))
+						}
+						amu.Lock()
+						appended = append(appended, buf...)
+						amu.Unlock()
+						atomic.AddInt64(&stoppers, 1)
+						atomic.StoreInt64(&anySignal, 1)
+						target.AppendError(buf...)
+						for k := range buf {
+							buf[k] = fmt.Errorf("caller-reused-its-buffer-%d", k)
+						}
+						buf = append(buf, fmt.Errorf("caller-appended-to-its-own-buffer"), fmt.Errorf("caller-appended-again"))
+						_ = buf
+						atomic.StoreInt64(&manyUsed, 1)
 					case "kill":
 						atomic.AddInt64(&kills, 1)
 						atomic.AddInt64(&stoppers, 1)
@@ -288,6 +309,9 @@ func run(c Case) hx.Verdict {
 		return hx.Fail("blocked", "signalling goroutines did not finish within 30 s (kind %s)", c.Kind)
 	}
 	v.Label("kind:" + c.Kind)
+	if atomic.LoadInt64(&manyUsed) == 1 {
+		v.Label("caller-owned-error-list-reused")
+	}
 	v.Count("hook_stop_gap_visits", atomic.LoadInt64(&r.visits))
 	v.Count("hook_rendezvous_pairs", atomic.LoadInt64(&r.pairs))
 	if r.pairs > 0 {
@@ -463,7 +487,7 @@ func run(c Case) hx.Verdict {
 	stopGoroutines := 0
 	for _, acts := range c.Actions {
 		for _, a := range acts {
-			if a == "stop" || a == "kill" || a == "append" {
+			if a == "stop" || a == "kill" || a == "append" || a == "appendmany" {
 				stopGoroutines++
 				break
 			}
